@@ -236,6 +236,33 @@ func (i *interpreter) decide(c *term) bool {
 		p.dec = append(p.dec, d)
 		p.pos++
 	} else {
+		if i.noFork {
+			// after the harness has returned (drain/quiesce) left-over goroutines are
+			// followed along ONE feasible path: no alternatives are recorded
+			if p.model == nil {
+				i.checkM(nil)
+			}
+			if v, ok := i.evalUnderModel(c); ok {
+				p.dec = append(p.dec, Decision{Side: v, Forced: true})
+				p.pos++
+				if v {
+					i.addPC(c)
+				} else {
+					i.addPC(nc)
+				}
+				return v
+			}
+			r := i.checkM(c)
+			v := r != resUnsat
+			p.dec = append(p.dec, Decision{Side: v, Forced: true})
+			p.pos++
+			if v {
+				i.addPC(c)
+			} else {
+				i.addPC(nc)
+			}
+			return v
+		}
 		// a cached model of the path condition decides one side for free
 		rT, rF := resUnknown, resUnknown
 		knownT, knownF := false, false
